@@ -483,8 +483,11 @@ def symbol_values_stored_verbatim(ctx: Ctx) -> None:
             isinstance(t, ast.Subscript) and unparse(t.value) == table and unparse(t.slice) != name for t in (s.targets if isinstance(s, ast.Assign) else [s.target]))]
         for o in others:
             ctx.fail(f"Scope.add_symbol:{unparse(o)[:50]}", f"stores under a key other than the symbol's name `{name}`")
-        for v, _c in facts:
+        for v, c_ in facts:
             n += 1
+            redefinition_guards = [t for t, pol in c_ if (" in self.symbols" in t or " in self.code_symbols" in t or ".get(" in t)]
+            ctx.check(not redefinition_guards, f"Scope.add_symbol:{table}[{name}]:always-stored", "a definition is stored whether or not the name was defined before (`:=` "
+                      f"re-assignment, macro parameters rebound per application); the store runs only when {redefinition_guards}")
             tree = ast.parse(v, mode="eval").body
             arith = any(isinstance(x, (ast.BinOp, ast.UnaryOp)) or (isinstance(x, ast.Call) and call_name(x) in ("abs", "min", "max", "round", "divmod", "ctypes.c_int32", "ctypes.c_uint32"))
                         for x in ast.walk(tree))
